@@ -128,7 +128,7 @@ def main(argv=None):
                             solver_s=round(r["solver_s"], 3), wall_s=round(r.get("wall_s", 0.0), 2), tags=len(r["tags"])))
     inconclusive = []
     if errors:
-        inconclusive.append(f"{len(errors)} job(s) crashed: {errors[0]['error'][-400:]}")
+        inconclusive.append(f"{len(errors)} job(s) crashed: {errors[0]['error'][-400:]} [job {errors[0]['job']['harness']} {json.dumps(errors[0]['job']['params'])[:300]}]")
     if timed_out:
         inconclusive.append(f"time limit {limit}s hit before the path set was exhausted")
     if tot["unknown"]:
@@ -197,6 +197,7 @@ def main(argv=None):
             jobs=len(results), per_job=per_job[:60], paths=tot["paths"], feasible_paths=tot["feasible"], queries=tot["queries"],
             solver_s=round(tot["solver_s"], 2), unknown=tot["unknown"], aborted=tot["aborted"], abort_reasons=abort_reasons,
             reached_labels=reached, twin_and_xval_replays_ok=tot["xval_ok"],
+            worker_restarts_after_abnormal_exit=sum(r.get("worker_restarts", 0) for r in results.values()),
             xval_paths_skipped=dict(tie_only_path=sum(r.get("xval_tie_skipped", 0) for r in results.values()),
                                     over_approximated_function=sum(r.get("xval_uf_skipped", 0) for r in results.values()),
                                     no_exactly_representable_model=sum(r.get("xval_skipped_no_float_safe_model", 0) for r in results.values())), spurious_models=len(spurious),
